@@ -174,7 +174,7 @@ def get_moments_of_inertia(system, weight=True):
     return evals, evecs
 
 
-def get_center_of_mass(system):
+def get_center_of_mass(system, weight=True):
     """Calculates the center of mass and also takes the periodicity of the
     system into account.
 
@@ -184,6 +184,8 @@ def get_center_of_mass(system):
     Args:
         system(ase.Atoms): The system for which the center of mass is
             calculated.
+        weight(bool): Whether the atoms are weighted by their mass. If False,
+            the geometric center is returned.
 
     Returns:
         np.ndarray: The cartesian positions of the center of mass in the given
@@ -191,7 +193,10 @@ def get_center_of_mass(system):
     """
     pbc = system.get_pbc()
     relative_positions = system.get_scaled_positions()
-    masses = system.get_masses()
+    if weight:
+        masses = system.get_masses()
+    else:
+        masses = np.ones(len(system))
     total_mass = np.sum(masses)
     cell = system.get_cell()
 
